@@ -248,6 +248,24 @@ fn check_text(r: &mut Report, bytes: &[u8], hashed: bool) {
             }
         }
     }
+    // the same text in a NUL-padded field: the padding is not part of the text, whatever the text's bytes are
+    if bytes.is_empty() {
+        return;
+    }
+    for pad in [1usize, 3] {
+        let mut padded = bytes.to_vec();
+        padded.extend(std::iter::repeat(0u8).take(pad));
+        r.case_enumerated(true);
+        let case = json!({"cp437_bytes": hex(bytes), "nul_padding": pad});
+        match guarded(|| <Dflt as Encoding<String>>::decode(&padded).map(|(s, rest)| (s, rest.len())).map_err(|e| format!("{e:?}"))) {
+            Err(p) => viol(r, &format!("Default<String> {}", panic_signature(&p)), format!("padded text bytes {}: {p}", hex(&padded)), case),
+            Ok(d) => {
+                if d != Ok((text.clone(), 0)) {
+                    viol(r, "Default<String>.decode keeps the NUL padding of a text field", format!("decode({}) = {d:?}, expected {text:?}", hex(&padded)), case);
+                }
+            }
+        }
+    }
 }
 
 fn check_hex(r: &mut Report, bytes: &[u8]) {
@@ -339,7 +357,7 @@ pub fn miri_slice(r: &mut Report, seed: u64, n: usize, shard: usize) -> usize {
 
 pub fn run(ctx: &Ctx) -> i32 {
     let mut report = ctx.report("C17", "exploration");
-    report.rule = "integers: u8/u16 exhaustively, u32/u64/usize at every power-of-ten and power-of-two boundary (+-1) plus random values, each under Default(LE)/BigEndian/Bcd, encode compared with an independent formula and decode(encode(v)) with (v, nothing left); all 65536 tags under BigEndian and every representable tag under Default, every representable tag (one- and two-byte) followed by every possible next byte; BCD *inputs*: every digit string of 0..3 bytes with and without a trailing F pad exhaustively, sampled to 11 bytes, for all five integer widths (value, or error when the digits exceed the type); CP437: every byte string of length 1..2 and all 256 bytes in each position of length-3 strings (canonical = no trailing NUL), random strings to 999 bytes, texts whose bytes are meaningful in another representation (UTF-8 sequences, byte-order marks, line ends, escapes) at the start / end / inside; hex strings to 64 bytes; receipt numbers 0..9999 and FFFF; and the codecs interleaved (one value through every integer width, the tag, text and hex codecs back to back in rotating order). Non-trivial = inside the claimed domain; distinct = distinct (encoding, type, value/input).".into();
+    report.rule = "integers: u8/u16 exhaustively, u32/u64/usize at every power-of-ten and power-of-two boundary (+-1) plus random values, each under Default(LE)/BigEndian/Bcd, encode compared with an independent formula and decode(encode(v)) with (v, nothing left); all 65536 tags under BigEndian and every representable tag under Default, every representable tag (one- and two-byte) followed by every possible next byte; BCD *inputs*: every digit string of 0..3 bytes with and without a trailing F pad exhaustively, sampled to 11 bytes, for all five integer widths (value, or error when the digits exceed the type); CP437: every byte string of length 1..2 and all 256 bytes in each position of length-3 strings (canonical = no trailing NUL), random strings to 999 bytes, every one of these texts again behind 1 and 3 bytes of NUL padding (decodes to the same text), texts whose bytes are meaningful in another representation (UTF-8 sequences, byte-order marks, line ends, escapes) at the start / end / inside; hex strings to 64 bytes; receipt numbers 0..9999 and FFFF; and the codecs interleaved (one value through every integer width, the tag, text and hex codecs back to back in rotating order). Non-trivial = inside the claimed domain; distinct = distinct (encoding, type, value/input).".into();
     report.exhaustive = Some(false);
     report.assumptions = vec![
         "independent encodings in refcodec::codec (bcd_bytes, tag_bytes, CP437 table generated from Python's cp437 codec)".into(),
